@@ -38,9 +38,67 @@ fn check_rect(x: f32, y: f32, w: f32, h: f32) -> Option<String> {
     None
 }
 
-fn check_arc(cx: f32, cy: f32, r: f32, start: f32, sweep: f32, st: &mut Stats) -> Option<String> {
+/// what was built before the arc (the arc must not depend on it, apart from starting with a line
+/// from wherever the current point is to the arc's starting point)
+fn build_prefix(pb: &mut PathBuilder, prefix: u64, arc_start: (f32, f32)) {
+    match prefix {
+        0 => {}
+        1 => pb.move_to(3., -2.),
+        2 => {
+            pb.move_to(1., 1.);
+            pb.line_to(arc_start.0, arc_start.1); // the current point already is the arc's starting point
+        }
+        3 => pb.rect(10., 10., 20., 20.),
+        4 => {
+            // a closed subpath whose last vertex is the arc's starting point (the current point is its first)
+            pb.move_to(-5., 7.);
+            pb.line_to(2., 9.);
+            pb.line_to(arc_start.0, arc_start.1);
+            pb.close();
+        }
+        5 => {
+            // a closed subpath that starts at the arc's starting point
+            pb.move_to(arc_start.0, arc_start.1);
+            pb.line_to(2., 9.);
+            pb.line_to(4., -3.);
+            pb.close();
+        }
+        6 => {
+            pb.move_to(0., 0.);
+            pb.arc(1., 2., 3., 0.5, 2.);
+        }
+        _ => {
+            pb.move_to(0., 0.);
+            pb.quad_to(5., 5., arc_start.0, arc_start.1);
+            pb.cubic_to(1., 2., 3., 4., 5., 6.);
+        }
+    }
+}
+
+fn check_arc(cx: f32, cy: f32, r: f32, start: f32, sweep: f32, prefix: u64, st: &mut Stats) -> Option<String> {
+    // the arc's own starting point, taken from an arc built on an empty builder
+    let mut probe = PathBuilder::new();
+    probe.arc(cx, cy, r, start, sweep);
+    let probe = probe.finish();
+    let arc_start = match probe.ops.first() {
+        Some(PathOp::LineTo(q)) => (q.x, q.y),
+        o => return Some(format!("arc on an empty builder starts with {:?}, not with a LineTo", o)),
+    };
     let mut pb = PathBuilder::new();
+    build_prefix(&mut pb, prefix, arc_start);
+    let mut tmp = PathBuilder::new();
+    build_prefix(&mut tmp, prefix, arc_start);
+    let n0 = tmp.finish().ops.len();
+    pb.arc(cx, cy, r, start, sweep);
+    let full = pb.finish();
+    // the ops the arc appended must be the same whatever came before
+    let appended = &full.ops[n0.min(full.ops.len())..];
+    if appended.len() != probe.ops.len() || !appended.iter().zip(probe.ops.iter()).all(|(a, b)| same_op(a, b)) {
+        return Some(format!("arc({},{},{},{},{}) appended {:?} after prefix #{} but {:?} on an empty builder", cx, cy, r, start, sweep, appended, prefix, probe.ops));
+    }
+    st.add(&format!("arc_prefix_{}", prefix), 1);
     let from = (3.0f32, -2.0f32);
+    let mut pb = PathBuilder::new();
     pb.move_to(from.0, from.1);
     pb.arc(cx, cy, r, start, sweep);
     let p = pb.finish();
@@ -217,7 +275,8 @@ pub fn run(ctx: &Ctx) -> Outcome {
         };
         let (cx, cy) = (f(&mut rng), f(&mut rng));
         st.add("arcs_checked", 1);
-        if let Some(v) = check_arc(cx, cy, r, start, sweep, st) {
+        let prefix = rng.below(8);
+        if let Some(v) = check_arc(cx, cy, r, start, sweep, prefix, st) {
             co.viol("C20", v);
         }
         if want || !co.violations.is_empty() {
